@@ -30,6 +30,10 @@ pub fn boundary_ints() -> Vec<i128> {
         v.push((1i128 << s) + 1);
         v.push((1i128 << s) - 1);
     }
+    // integers of 54..64 bits that a double holds exactly (spelled with a fraction or an exponent they go through one)
+    let p10 = |n: u32| 10i128.pow(n);
+    v.extend([p10(16), p10(18), -p10(18), p10(19), 12 * p10(18), 1i128 << 60, (1i128 << 64) - 2048, p63 + 2048, -p63 + 1024,
+              (1i128 << 53) + 2, 3 * (1i128 << 61), -(3 * (1i128 << 61))]);
     v
 }
 
@@ -262,6 +266,29 @@ fn spell_int(r: &mut Rng, i: i128, out: &mut String) {
                 // shift by powers of ten
                 let k = r.range(1, 3);
                 out.push_str(&format!("{}{}E-{}", i, "0".repeat(k), k));
+            }
+        }
+    } else if !small && (i as f64) as i128 == i && r.chance(40) {
+        // a double holds this integer exactly, so a spelling with a fraction or an exponent that denotes EXACTLY this
+        // number must come out as this number (a spelling that only rounds to it is finding F2's subject)
+        let digits = i.abs().to_string();
+        let sign = if i < 0 { "-" } else { "" };
+        match r.below(5) {
+            0 => out.push_str(&format!("{}.0", i)),
+            1 => out.push_str(&format!("{}e0", i)),
+            2 => out.push_str(&format!("{}0E-1", i)),
+            3 => {
+                let frac = digits[1..].trim_end_matches('0');
+                let marker = if r.chance(50) { "E" } else { "e+" };
+                if frac.is_empty() {
+                    out.push_str(&format!("{}{}{}{}", sign, &digits[..1], marker, digits.len() - 1));
+                } else {
+                    out.push_str(&format!("{}{}.{}{}{}", sign, &digits[..1], frac, marker, digits.len() - 1));
+                }
+            }
+            _ => {
+                let z = digits.len() - digits.trim_end_matches('0').len();
+                out.push_str(&format!("{}{}e{}", sign, &digits[..digits.len() - z], z));
             }
         }
     } else {
